@@ -1,11 +1,23 @@
-/- BDS 2,0 — crates/rs1090/src/decode/bds/bds20.rs   (STUB: not modelled yet) -/
+/- BDS 2,0 aircraft identification — crates/rs1090/src/decode/bds/bds20.rs -/
 import Rs1090.Model.Decode.Common
+import Rs1090.Model.Decode.Bds08
 namespace Rs1090.Model.Bds20
 open Rs1090 Rs1090.Model
 
-/-- STUB -/
-def modelled : Bool := false
+def modelled : Bool := true
 
-def read : R SerFields := R.fail .other
+/-- `fail_if_not20` (deku `map` on the first byte): `Err(DekuError::Assertion)` unless `0x20` -/
+def failIfNot20 (v : Nat) : Outcome Nat :=
+  if v == 0x20 then .ok v else .err .assertion
+
+/-- `AircraftIdentification` (BDS 2,0): the BDS code byte (`#[serde(skip)]`), then
+    `bds08::callsign_read` on the remaining 48 bits.  No further validity rule: any eight
+    6-bit codes are accepted ('#' for the unassigned ones, code 32 dropped). -/
+def read : R SerFields := do
+  let b ← bits 8
+  let _ ← R.lift (failIfNot20 b)
+  let cs ← Bds08.callsign
+  pure <| tagged (key! "bds") (key! "20") <| .ok [
+    fld (key! "callsign") (.chars cs) ]
 
 end Rs1090.Model.Bds20
